@@ -484,13 +484,65 @@ def qr(m):
 
 
 def clip(x, lo, hi):
-    def one(v):
-        if T.symbolic(v, lo, hi):
-            return T.ite(lift(v) < lo, lo, T.ite(lift(v) > hi, hi, v))
-        return _norm(min(max(v, lo), hi))
+    def one(v, l, h):
+        if T.symbolic(v, l, h):
+            return T.ite(lift(v) < l, l, T.ite(lift(v) > h, h, v))
+        return _norm(min(max(v, l), h))
+    if isinstance(x, (list, tuple)):
+        x = array(x)
     if isinstance(x, SArr):
-        return SArr(x.shape, [one(v) for v in x.flat])
-    return one(x)
+        los = lo if isinstance(lo, SArr) else (array(lo) if isinstance(lo, (list, tuple)) else None)
+        his = hi if isinstance(hi, SArr) else (array(hi) if isinstance(hi, (list, tuple)) else None)
+        xs = x
+        if los is not None:
+            xs, los = broadcast(xs, los)
+        if his is not None:
+            xs, his = broadcast(xs, his)
+            if los is not None:
+                xs, los = broadcast(xs, los)
+        return SArr(xs.shape, [one(v, lo if los is None else los.flat[i], hi if his is None else his.flat[i])
+                               for i, v in enumerate(xs.flat)])
+    return one(x, lo, hi)
+
+
+def _minmax(a, b, want_min):
+    def one(u, v):
+        if T.symbolic(u, v):
+            c = lift(u) < v
+            return T.ite(c, u, v) if want_min else T.ite(c, v, u)
+        return _norm(min(u, v) if want_min else max(u, v))
+    if isinstance(a, (list, tuple)):
+        a = array(a)
+    if isinstance(b, (list, tuple)):
+        b = array(b)
+    if isinstance(a, SArr) or isinstance(b, SArr):
+        if not isinstance(a, SArr):
+            a = SArr((), [a])
+        if not isinstance(b, SArr):
+            b = SArr((), [b])
+        a, b = broadcast(a, b)
+        return SArr(a.shape, [one(u, v) for u, v in zip(a.flat, b.flat)])
+    return one(a, b)
+
+
+def round_(x, decimals=0):
+    """numpy.round(x, d) = floor(x*10^d + 1/2) / 10^d  (round-half-even differs only on exact ties)"""
+    import z3
+    if isinstance(x, SArr):
+        return SArr(x.shape, [round_(v, decimals) for v in x.flat])
+    if not isinstance(x, (R, I)):
+        return _norm(round(T.to_frac(x) * 10 ** decimals) / Fraction(10 ** decimals))
+    sc = 10 ** int(decimals)
+    y = lift(x) * sc + Fraction(1, 2)
+    return R(z3.ToReal(z3.ToInt(y.z))) / sc
+
+
+def minimum(a, b):
+    return _minmax(a, b, True)
+
+
+def maximum(a, b):
+    return _minmax(a, b, False)
 
 
 def max_(x):
@@ -605,6 +657,10 @@ class NumpyModel:
     cross = staticmethod(cross)
     sum = staticmethod(sum_)
     clip = staticmethod(clip)
+    minimum = staticmethod(minimum)
+    round = staticmethod(round_)
+    around = staticmethod(round_)
+    maximum = staticmethod(maximum)
     max = staticmethod(max_)
     mod = staticmethod(mod)
     allclose = staticmethod(allclose)
